@@ -6,6 +6,7 @@
 
 #include "common.h"
 #include "simev.h"
+#include "valloc.h"
 
 #define NAIO 16
 #define NCTX 8
@@ -101,11 +102,48 @@ finish_line(void)
 	ev_flush();
 }
 
+static void
+lib_init(void)
+{
+	nng_init_params ip;
+	memset(&ip, 0, sizeof(ip));
+	ip.malloc_fn = valloc_malloc;
+	ip.calloc_fn = valloc_calloc;
+	ip.free_fn   = valloc_free;
+	nng_init(&ip);
+	mock_register();
+}
+
+// close everything, stop the library and report what the accounting allocator still holds
+static void
+lib_fini(bool report)
+{
+	unsigned long live, bytes, bad, tot;
+	do_close();
+	sim_quiesce();
+	for (int i = 0; i < NAIO; i++) {
+		nng_aio_stop(aios[i]);
+		nng_aio_free(aios[i]);
+		aios[i]     = NULL;
+		aio_kind[i] = 0;
+	}
+	sim_quiesce();
+	nng_fini();
+	sim_reset_mutex_table();
+	valloc_stats(&live, &bytes, &bad, &tot);
+	if (report) {
+		printf("fini live=%lu bytes=%lu badfree=%lu\n", live, bytes, bad);
+	}
+	valloc_reset_counters();
+	ev_clear();
+	mock_reset();
+	nlisten = 0;
+}
+
 int
 main(void)
 {
-	nng_init(NULL);
-	mock_register();
+	lib_init();
 	for (int i = 0; i < NAIO; i++) {
 		nng_aio_alloc(&aios[i], aio_cb, (void *) (intptr_t) i);
 	}
@@ -115,25 +153,16 @@ main(void)
 		}
 		const char *op = vw[0];
 #define IS(s) (strcmp(op, s) == 0)
-		if (IS("reset")) {
-			do_close();
-			sim_quiesce();
-			for (int i = 0; i < NAIO; i++) {
-				nng_aio_stop(aios[i]);
-				nng_aio_free(aios[i]);
-			}
-			sim_quiesce();
-			nng_fini();
-			ev_clear();
-			mock_reset();
-			nlisten = 0;
-			nng_init(NULL);
-			mock_register();
+		if (IS("reset") || IS("fini")) {
+			// `fini`: like reset, but reports the allocator balance after nng_fini
+			lib_fini(IS("fini"));
+			lib_init();
 			for (int i = 0; i < NAIO; i++) {
 				nng_aio_alloc(&aios[i], aio_cb, (void *) (intptr_t) i);
-				aio_kind[i] = 0;
 			}
-			printf("reset\n");
+			if (IS("reset")) {
+				printf("reset\n");
+			}
 			continue;
 		}
 		if (IS("sched") && vn >= 2) {
@@ -374,13 +403,7 @@ main(void)
 			printf("bad-op\n");
 		}
 	}
-	do_close();
-	sim_quiesce();
-	for (int i = 0; i < NAIO; i++) {
-		nng_aio_stop(aios[i]);
-		nng_aio_free(aios[i]);
-	}
-	nng_fini();
+	lib_fini(false);
 	{
 		unsigned long st, sw;
 		int           nt;
